@@ -74,6 +74,24 @@ def gen_case(rng, tier):
     else:
         max_n = 40 if tier == "quick" else rng.choice((40, 80, 150))
     A, B = dgmgen.gen_pair(rng, max_n)
+    staircase = rng.random() < 0.015
+    if staircase:
+        # tied staircase: every point ties with two neighbours of the other diagram, so augmenting paths run through
+        # the whole graph (the matcher recurses once per vertex of the path)
+        n_ = rng.choice((30, 60, 120))
+        off_ = rng.choice((0.5, 0.5, 0.25))
+        A = [[float(i), float(i) + 100.0] for i in range(n_)]
+        B = [[p[0] - off_, p[1] - off_] for p in A]
+        if rng.random() < 0.5:
+            A, B = B, A
+    if rng.random() < 0.06:
+        # "at every numeric scale": both diagrams multiplied by one power of two far outside everyday magnitudes (exact,
+        # so ties stay ties); beyond single precision's range in both directions, never near overflow
+        e_ = rng.choice((127, 128, 130, 200, 500, 900, -127, -130, -200, -500, -900))
+        mx_ = max([abs(x) for p in A + B for x in p if math.isfinite(x)] + [1.0])
+        if mx_ * 2.0 ** e_ < 1e300:
+            A = [[x * 2.0 ** e_ for x in p] for p in A]
+            B = [[x * 2.0 ** e_ for x in p] for p in B]
     k = rng.randint(2, 6 if max_n <= 12 else 3)
     # a short call history before the pair under test: other pairs evaluated first in the same process, biased to
     # pairs of the same total size with a different split (a point moved from one diagram to the other)
@@ -108,8 +126,17 @@ def gen_case(rng, tier):
                    "warn_filter": rng.choice(mc.WARN_FILTERS_AND_ERROR), "prewarm_registry": rng.random() < 0.3},
         "ops": [],
     }
-    if rng.random() < 0.25:
+    if rng.random() < 0.25 or staircase:
         case_["config"]["stack"] = rng.choice(mc.STACKS[3:])
+    if staircase:
+        case_["inputs"].update(rep1="f64", rep2="f64", prelude=[])
+        case_["config"]["modes"] = case_["config"]["modes"][:2]
+    mx2_ = max([abs(x) for p in A + B for x in p if math.isfinite(x)] + [1.0])
+    if mx2_ > 1e30 or (0 < mx2_ < 1e-30):
+        # far outside the range of the narrow / integer forms: plain float64 arrays or nested lists
+        for r_ in ("rep1", "rep2"):
+            if case_["inputs"][r_] not in ("f64", "list", "view", "fortran"):
+                case_["inputs"][r_] = "f64"
     if conc:
         case_["inputs"]["concurrent"] = conc
         case_["config"]["p_switch"] = rng.choice((2, 4, 8))
